@@ -55,7 +55,7 @@ func (c *nilValReturnChecker) VisitStmt(stmt ast.Stmt) {
 	}
 	xIsNil := expr.Op == token.EQL &&
 		typep.SideEffectFree(c.ctx.TypesInfo, expr.X) &&
-		qualifiedName(expr.Y) == "nil"
+		c.ctx.TypesInfo.Types[expr.Y].IsNil()
 	if !xIsNil {
 		return
 	}
